@@ -2,6 +2,7 @@ package main
 
 import (
 	"fmt"
+	"sort"
 	"strings"
 
 	"golang.org/x/tools/go/ssa"
@@ -91,8 +92,164 @@ type CountQuery struct {
 	Cut    map[Edge]bool // edges assumed infeasible (exception rows)
 }
 
-// RunCount performs the forward dataflow and returns the count sets at every exit.
+// RunCount returns the count sets at every exit of the region. It enumerates the feasible paths (branches on
+// the same value go the same way, nil-ness learnt from a test holds later: paths.go), merging states that agree;
+// if that exploration runs into its bound it falls back to the path-insensitive dataflow, which over-approximates.
 func RunCount(q CountQuery) []CountExit {
+	if out, ok := runCountPaths(q); ok {
+		return out
+	}
+	return runCountFlow(q)
+}
+
+func runCountPaths(q CountQuery) ([]CountExit, bool) {
+	entry := q.Entry
+	if entry == nil {
+		entry = q.Fn.Blocks[0]
+	}
+	type exitKey struct {
+		from *ssa.BasicBlock
+		to   *ssa.BasicBlock
+		kind string
+	}
+	exits := map[exitKey]*CountExit{}
+	var order []exitKey
+	addExit := func(k exitKey, instr ssa.Instruction, n int) {
+		s := CSet(1 << n)
+		if e, ok := exits[k]; ok {
+			e.Set |= s
+			return
+		}
+		exits[k] = &CountExit{Kind: k.kind, From: k.from, To: k.to, Instr: instr, Set: s}
+		order = append(order, k)
+	}
+	type item struct {
+		b   *ssa.BasicBlock
+		idx int
+		st  PState
+		n   int
+	}
+	old := assumeHook
+	assumeHook = nil
+	defer func() { assumeHook = old }()
+	seen := map[string]bool{}
+	work := []item{{entry, 0, PState{}, 0}}
+	steps := 0
+	for len(work) > 0 {
+		it := work[len(work)-1]
+		work = work[:len(work)-1]
+		k := fmt.Sprintf("%d/%d/%d/%s", it.b.Index, it.idx, it.n, it.st.key())
+		if seen[k] {
+			continue
+		}
+		seen[k] = true
+		steps++
+		if steps > 100000 {
+			return nil, false
+		}
+		st := it.st.clone()
+		if it.idx == 0 {
+			enterBlock(st, it.b)
+		}
+		cur := it.n
+		ended := false
+		for i := it.idx; i < len(it.b.Instrs); i++ {
+			ins := it.b.Instrs[i]
+			if _, isPhi := ins.(*ssa.Phi); isPhi {
+				continue
+			}
+			if stv, ok := ins.(*ssa.Store); ok {
+				if al, ok := stv.Addr.(*ssa.Alloc); ok {
+					if c, ok := EvalConst(stv.Val, st); ok {
+						st[al] = c
+					} else {
+						st[al] = stv.Val
+					}
+				}
+			}
+			var ev CSet = C0
+			if q.Event != nil {
+				ev = evOrZero(q.Event, ins)
+			}
+			if ev != C0 {
+				// an event that may count 0, 1 or more: continue once per possibility
+				var alts []int
+				for j := 0; j < 3; j++ {
+					if ev&(1<<j) != 0 {
+						n := cur + j
+						if n > 2 {
+							n = 2
+						}
+						alts = append(alts, n)
+					}
+				}
+				for _, n := range alts[1:] {
+					if q.NoRet != nil && q.NoRet(ins) {
+						addExit(exitKey{it.b, nil, "noreturn"}, ins, n)
+					} else if r, ok := ins.(*ssa.Return); ok {
+						addExit(exitKey{it.b, nil, "return"}, r, n)
+					} else {
+						work = append(work, item{it.b, i + 1, st.clone(), n})
+					}
+				}
+				cur = alts[0]
+			}
+			if q.NoRet != nil && q.NoRet(ins) {
+				addExit(exitKey{it.b, nil, "noreturn"}, ins, cur)
+				ended = true
+				break
+			}
+			if r, ok := ins.(*ssa.Return); ok {
+				addExit(exitKey{it.b, nil, "return"}, r, cur)
+				ended = true
+				break
+			}
+		}
+		if ended {
+			continue
+		}
+		for _, sc := range stepSuccs(it.b, st) {
+			if q.Cut[Edge{it.b, sc.Idx}] {
+				continue
+			}
+			s := sc.To
+			if q.Header != nil && s == q.Header {
+				addExit(exitKey{it.b, s, "backedge"}, nil, cur)
+				continue
+			}
+			if q.Region != nil && !q.Region[s] {
+				addExit(exitKey{it.b, s, "leave"}, nil, cur)
+				continue
+			}
+			if s == entry && q.Region != nil {
+				addExit(exitKey{it.b, s, "backedge"}, nil, cur)
+				continue
+			}
+			work = append(work, item{s, 0, sc.St, cur})
+		}
+	}
+	var out []CountExit
+	for _, k := range order {
+		out = append(out, *exits[k])
+	}
+	sort.SliceStable(out, func(i, j int) bool {
+		if out[i].From.Index != out[j].From.Index {
+			return out[i].From.Index < out[j].From.Index
+		}
+		ti, tj := -1, -1
+		if out[i].To != nil {
+			ti = out[i].To.Index
+		}
+		if out[j].To != nil {
+			tj = out[j].To.Index
+		}
+		return ti < tj
+	})
+	return out, true
+}
+
+// runCountFlow is the path-insensitive forward dataflow.
+func runCountFlow(q CountQuery) []CountExit {
 	entry := q.Entry
 	if entry == nil {
 		entry = q.Fn.Blocks[0]
